@@ -241,9 +241,13 @@ class Validator:
             try:
                 n = format_map[n_key]
                 try:
-                    n = int(n)
-                except (TypeError, ValueError):
+                    as_int = int(n)
+                except (TypeError, ValueError, OverflowError):
                     pass
+                else:
+                    # text and integral numbers only: int() truncates 1.5
+                    if isinstance(n, (str, bytes)) or as_int == n:
+                        n = as_int
             except KeyError:
                 n = n_key
 
